@@ -383,7 +383,11 @@ func genToolResult(r *vlib.Rng, ids []string) Block {
 			txt = jarr([]string{jobj(r, []kv{{"type", `"text"`}, {"text", jstr(genStr(r, 0, 12))}})})
 		}
 		if r.Chance(1, 4) { // what a screenshot or file-reading tool hands back: text plus an inline image or document
-			data := strings.Repeat(vlib.Pick(r, []string{"iVBORw0KGgo", "JVBERi0xLjQK", "QUJD"}), 1+r.Intn(40))
+			reps := 1 + r.Intn(40)
+			if r.Chance(1, 3) { // a real screenshot: several KiB up to tens of KiB of base64
+				reps = 400 + r.Intn(3000)
+			}
+			data := strings.Repeat(vlib.Pick(r, []string{"iVBORw0KGgo", "JVBERi0xLjQK", "QUJD"}), reps)
 			typ := vlib.Pick(r, []string{"image", "document"})
 			mt := map[string]string{"image": "image/png", "document": "application/pdf"}[typ]
 			parts := []string{jobj(r, []kv{{"type", jstr(typ)}, {"source", jobj(r, []kv{{"type", `"base64"`}, {"media_type", jstr(mt)}, {"data", jstr(data)}})}})}
@@ -1107,7 +1111,7 @@ func newSlice(engine string) *slice {
 	b.KeepBodies = true
 	b.SetScript(func(_ int, sn *stack.Seen) stack.Behaviour { return anth.OKAnswer("B", sn) })
 	a.Refuse()
-	s, err := stack.Start(stack.Opts{Engine: engine, Balancer: "priority", EPs: []stack.EP{{Name: "A", Type: "openai", Priority: 300, Backend: a}, {Name: "B", Type: "openai", Priority: 100, Backend: b}},
+	s, err := stack.Start(stack.Opts{Vary: stack.VaryFor("c12.slice", engine), Engine: engine, Balancer: "priority", EPs: []stack.EP{{Name: "A", Type: "openai", Priority: 300, Backend: a}, {Name: "B", Type: "openai", Priority: 100, Backend: b}},
 		Mutate: func(cfg *config.Config) {
 			cfg.Translators.Anthropic.Enabled = true
 			cfg.Translators.Anthropic.MaxMessageSize = 10 << 20
